@@ -1,0 +1,27 @@
+//go:build verif
+
+package state
+
+// C15 / C12: the shared message history of the message-driven machine.
+// ghost.histAdds counts recorded messages, ghost.histLast is the last one.
+//@ ghost histAdds int
+//@ ghost histLast ref
+//@ spec func msgType(m ref) string
+//@ assume func github.com/keep-network/keep-core/pkg/net.Message.Type
+//@   ensures result == @msgType(recv)
+
+//@ type BaseAsyncState
+//@   property C15
+//@   guarded_by messagesMutex messages
+//@   writers messages : BaseAsyncState.ReceiveToHistory, NewBaseAsyncState
+
+//@ func BaseAsyncState.ReceiveToHistory
+//@   property C15 C12
+//@   opt lock-no-havoc 1
+//@   requires bas != nil
+//@   modifies bas.messages, ghost.histAdds, ghost.histLast
+//@   yields ghost.histAdds = old(ghost.histAdds) + 1
+//@   yields ghost.histLast = msg
+//@   ensures ghost.histAdds == old(ghost.histAdds) + 1 && ghost.histLast == msg
+//@   ensures [message-is-kept-under-its-type] (@msgType(msg) in bas.messages) && len(bas.messages[@msgType(msg)]) == ite(@msgType(msg) in old(bas.messages), len(old(bas.messages)[@msgType(msg)]), 0) + 1 && bas.messages[@msgType(msg)][len(bas.messages[@msgType(msg)]) - 1] == msg
+//@   ensures [earlier-messages-are-kept] forall t string, i int :: (t in old(bas.messages)) && 0 <= i && i < len(old(bas.messages)[t]) ==> (t in bas.messages) && i < len(bas.messages[t]) && bas.messages[t][i] == old(bas.messages)[t][i]
